@@ -78,9 +78,10 @@ type c01Params struct {
 	in      int // index into connScripts, -1 = no inbound connection
 	out     int // index into connScripts, -1 = refuse
 	domL    bool
-	tail    int // 0 Close, 1 DeletePeer;Close, 2 DeletePeer;AddPeer;Close
+	tail    int // 0 Close, 1 DeletePeer;Close, 2 DeletePeer;AddPeer;Close, 3 DeletePeer || AddPeer, then Close, 4 DeletePeer || Close
 	trigK   string
 	trigN   int
+	api2J   int // tails 3/4: the second API goroutine acts api2J steps after DeletePeer was called
 }
 
 func (p c01Params) name() string {
@@ -98,7 +99,11 @@ func (p c01Params) name() string {
 	if p.domL {
 		dom = "L>R"
 	}
-	return fmt.Sprintf("%s/in=%s/out=%s/%s/tail%d/%s%d", mode, nm(p.in, "none"), nm(p.out, "refuse"), dom, p.tail, p.trigK, p.trigN)
+	s := fmt.Sprintf("%s/in=%s/out=%s/%s/tail%d/%s%d", mode, nm(p.in, "none"), nm(p.out, "refuse"), dom, p.tail, p.trigK, p.trigN)
+	if p.tail >= 3 {
+		s += fmt.Sprintf("+%d", p.api2J)
+	}
+	return s
 }
 
 func c01Run(p c01Params, ch vrt.Chooser, trace, baseline bool) (*world.World, *vrt.Exec, int) {
@@ -177,7 +182,31 @@ func c01Run(p c01Params, ch vrt.Chooser, trace, baseline bool) (*world.World, *v
 			}
 			vrt.WaitQuiescent()
 		}
-		if p.tail >= 1 {
+		if p.tail == 3 || p.tail == 4 {
+			// a second API goroutine races with DeletePeer
+			t0 := vrt.Cur().Steps()
+			vrt.GoWorld("api2", func() {
+				vrt.WaitStep(t0 + p.api2J)
+				if p.tail == 3 {
+					add()
+				} else {
+					w.Close()
+				}
+				w.SetFlag("api2-done")
+			})
+			w.DeletePeer(remIP)
+			w.WaitFlag("api2-done")
+			if p.tail == 3 {
+				rest := 44*time.Second - time.Duration(vrt.Cur().Now())
+				if rest > 12*time.Second {
+					rest = 12 * time.Second
+				}
+				if rest > 0 {
+					vrt.Sleep(rest)
+				}
+				vrt.WaitQuiescent()
+			}
+		} else if p.tail >= 1 {
 			w.DeletePeer(remIP)
 			if p.tail == 2 {
 				add()
@@ -265,6 +294,26 @@ func c01Scenarios(th bool) []*Scn {
 			out = append(out, c01Scn(q, bound))
 		}
 	}
+	// concurrent API tails: a second goroutine calls AddPeer (tail 3) or Close (tail 4) j steps into DeletePeer,
+	// for every j of a sweep, on the script pairs that have a session to tear down
+	stay := 4
+	type io struct {
+		passive bool
+		in, out int
+	}
+	for _, cb := range []io{{false, -1, stay}, {false, stay, -1}, {true, stay, -1}, {false, -1, 5}, {false, stay, stay}} {
+		for _, tail := range []int{3, 4} {
+			for _, t := range []int{0, 6000} {
+				stride := 4
+				if th {
+					stride = 1
+				}
+				for j := 0; j <= 44; j += stride {
+					out = append(out, c01Scn(c01Params{passive: cb.passive, in: cb.in, out: cb.out, tail: tail, trigK: "time", trigN: t, api2J: j}, bound+1))
+				}
+			}
+		}
+	}
 	return out
 }
 
@@ -312,6 +361,9 @@ func c01Lookup(name string) *Scn {
 	} else {
 		p.trigK = "time"
 		fmt.Sscanf(parts[5], "time%d", &p.trigN)
+	}
+	if i := strings.IndexByte(parts[5], '+'); i >= 0 {
+		fmt.Sscanf(parts[5][i:], "+%d", &p.api2J)
 	}
 	return c01Scn(p, 3)
 }
